@@ -1,6 +1,12 @@
 import FormulaeModel.Spec.C15
 import FormulaeModel.Model.Terms
 import FormulaeModel.Proofs.Indicator
+import FormulaeModel.Proofs.ResponsePipeline
+import FormulaeModel.Proofs.ResponseResolver
+import FormulaeModel.Proofs.ResponseCategorical
+import FormulaeModel.Proofs.ResponseScan
+import FormulaeModel.Properties.C01
+import FormulaeModel.Generated.Tables
 /-
 C15 — theorems about the model of response handling (`Response`, `ResponseMatrix.evaluate`,
 `Variable.eval_categoric` for `y[level]`, `proportion`).
@@ -110,5 +116,499 @@ theorem C15_full_rows (levels : List Level) (xs : List (Option Level)) (m : Matr
         | succ r =>
           have := ih'.2 r (by simpa using hr) (by simpa using hm)
           simpa using this
+
+-- ---------------------------------------------------------------------------------------------
+-- the predictor matrices do not depend on which response is named (whole-pipeline model)
+-- ---------------------------------------------------------------------------------------------
+open FormulaeModel.Pipeline in
+/-- **the predictors are a function of the resolved right-hand side, the component table and the
+frame after the NA step**: whenever `designMatrices` succeeds, its common and group-specific
+parts are `Pipeline.predictors m.common m.group (atomTable e) ⟨frame after NA, names⟩` — a
+function (defined in `Proofs/ResponsePipeline.lean` by the same steps: kinds, redundancy
+analysis, evaluation; group terms) in which the response `m.resp` does not occur — and the response
+part is `responsePart` of `m.resp` -/
+theorem C15_predictors_function (T : Parser.Table) (ops : Resolver.OpTable) (actions : List String)
+    (formula : String) (env : Env) (naAction : String) (b : Built)
+    (h : designMatrices T ops actions formula env naAction = .ok b) :
+    ∃ ts e m,
+      Scanner.scan formula.toList = .ok ts ∧ Parser.parse T ts = .ok e ∧
+      Resolver.describe ops e = .ok m ∧
+      NA.naStep actions naAction (usedCols e env.frame) env.frame = .ok b.frame ∧
+      predictors m.common m.group (atomTable e) { env with frame := b.frame } = .ok (b.common, b.group) ∧
+      responsePart { env with frame := b.frame } (atomTable e) m.resp = .ok b.response :=
+  designMatrices_factor T ops actions formula env naAction b h
+
+open FormulaeModel.Pipeline in
+/-- **predictor independence**: two successful runs (any formulas, any data, any NA policy) whose
+model descriptions have the same common and group terms, whose caller namespaces are equal, whose
+frames after the NA step have the same number of rows and which *agree on every component of the
+right-hand side* (`AgreeOn`: the component tables give the component the same expression, and the
+two frames after the NA step give the same columns to the names that expression reads) have equal
+common and group-specific parts — terms, data, labels, remembered state.  Nothing is assumed
+about the responses. -/
+theorem C15_independent (T : Parser.Table) (ops : Resolver.OpTable) (actions : List String)
+    (f₁ f₂ : String) (env₁ env₂ : Env) (na₁ na₂ : String) (b₁ b₂ : Built)
+    (ts₁ ts₂ : List Token) (e₁ e₂ : Expr) (m₁ m₂ : Terms.ModelV)
+    (h₁ : designMatrices T ops actions f₁ env₁ na₁ = .ok b₁)
+    (h₂ : designMatrices T ops actions f₂ env₂ na₂ = .ok b₂)
+    (hs₁ : Scanner.scan f₁.toList = .ok ts₁) (hp₁ : Parser.parse T ts₁ = .ok e₁)
+    (hd₁ : Resolver.describe ops e₁ = .ok m₁)
+    (hs₂ : Scanner.scan f₂.toList = .ok ts₂) (hp₂ : Parser.parse T ts₂ = .ok e₂)
+    (hd₂ : Resolver.describe ops e₂ = .ok m₂)
+    (hcommon : m₁.common = m₂.common) (hgroup : m₁.group = m₂.group)
+    (hnames : env₁.names = env₂.names) (hrows : b₁.frame.nrows = b₂.frame.nrows)
+    (hagree : ∀ n ∈ predictorNames m₁.common m₁.group,
+      AgreeOn { env₁ with frame := b₁.frame } { env₂ with frame := b₂.frame } (atomTable e₁) (atomTable e₂) n) :
+    b₁.common = b₂.common ∧ b₁.group = b₂.group := by
+  obtain ⟨ts₁', e₁', m₁', a1, a2, a3, _, a5, _⟩ := designMatrices_factor T ops actions f₁ env₁ na₁ b₁ h₁
+  obtain ⟨ts₂', e₂', m₂', c1, c2, c3, _, c5, _⟩ := designMatrices_factor T ops actions f₂ env₂ na₂ b₂ h₂
+  rw [hs₁] at a1; cases a1
+  rw [hp₁] at a2; cases a2
+  rw [hd₁] at a3; cases a3
+  rw [hs₂] at c1; cases c1
+  rw [hp₂] at c2; cases c2
+  rw [hd₂] at c3; cases c3
+  have := predictors_congr { env₁ with frame := b₁.frame } { env₂ with frame := b₂.frame }
+    (atomTable e₁) (atomTable e₂) m₁.common m₁.group hnames hrows hagree
+  rw [a5, hcommon, hgroup, c5] at this
+  simp only [Except.ok.injEq, Prod.mk.injEq] at this
+  exact this
+
+open FormulaeModel.Pipeline in
+/-- … in particular for `y₁ ~ rhs` and `y₂ ~ rhs` (the same right-hand side expression, two
+arbitrary left-hand sides): equality of the resolved common / group terms is then a theorem
+(`Resolver.describe_tilde`), not a hypothesis. -/
+theorem C15_independent_tilde (T : Parser.Table) (ops : Resolver.OpTable) (actions : List String)
+    (f₁ f₂ : String) (env₁ env₂ : Env) (na₁ na₂ : String) (b₁ b₂ : Built)
+    (ts₁ ts₂ : List Token) (y₁ y₂ rhs : Expr) (op₁ op₂ : Token)
+    (h₁ : designMatrices T ops actions f₁ env₁ na₁ = .ok b₁)
+    (h₂ : designMatrices T ops actions f₂ env₂ na₂ = .ok b₂)
+    (hs₁ : Scanner.scan f₁.toList = .ok ts₁) (hp₁ : Parser.parse T ts₁ = .ok (.binary y₁ op₁ rhs))
+    (hs₂ : Scanner.scan f₂.toList = .ok ts₂) (hp₂ : Parser.parse T ts₂ = .ok (.binary y₂ op₂ rhs))
+    (hop₁ : Resolver.lookupOp ops op₁.kind = some .tilde)
+    (hop₂ : Resolver.lookupOp ops op₂.kind = some .tilde)
+    (hnames : env₁.names = env₂.names) (hrows : b₁.frame.nrows = b₂.frame.nrows)
+    (hagree : ∀ rv, Resolver.resolve ops rhs = .ok rv →
+      ∀ n ∈ predictorNames (Resolver.rhsCommon rv) (Resolver.rhsGroup rv),
+      AgreeOn { env₁ with frame := b₁.frame } { env₂ with frame := b₂.frame }
+        (atomTable (.binary y₁ op₁ rhs)) (atomTable (.binary y₂ op₂ rhs)) n) :
+    b₁.common = b₂.common ∧ b₁.group = b₂.group := by
+  obtain ⟨_, _, m₁, a1, a2, a3, _, _, _⟩ := designMatrices_factor T ops actions f₁ env₁ na₁ b₁ h₁
+  obtain ⟨_, _, m₂, c1, c2, c3, _, _, _⟩ := designMatrices_factor T ops actions f₂ env₂ na₂ b₂ h₂
+  rw [hs₁] at a1; cases a1
+  rw [hp₁] at a2; cases a2
+  rw [hs₂] at c1; cases c1
+  rw [hp₂] at c2; cases c2
+  obtain ⟨_, rv₁, _, hr₁, _, hc₁, hg₁⟩ := Resolver.describe_tilde ops y₁ op₁ rhs hop₁ m₁ a3
+  obtain ⟨_, rv₂, _, hr₂, _, hc₂, hg₂⟩ := Resolver.describe_tilde ops y₂ op₂ rhs hop₂ m₂ c3
+  rw [hr₁] at hr₂; cases hr₂
+  exact C15_independent T ops actions f₁ f₂ env₁ env₂ na₁ na₂ b₁ b₂ ts₁ ts₂ _ _ m₁ m₂ h₁ h₂ hs₁ hp₁ a3
+    hs₂ hp₂ c3 (by rw [hc₁, hc₂]) (by rw [hg₁, hg₂]) hnames hrows
+    (by rw [hc₁, hg₁]; exact hagree rv₁ hr₁)
+
+open FormulaeModel.Pipeline in
+/-- **same data, two responses** (the statement's "the predictor matrices do not depend on which
+response is named", end to end): `y₁ ~ rhs` and `y₂ ~ rhs` built on one frame, in one
+namespace, neither run meeting a missing value in the columns it uses, give the same common and
+group-specific parts whenever both build and keep the same number of rows.  Decidable side
+conditions: the component names of the two left-hand sides are not component names of the
+right-hand side (`hfresh`; otherwise the component table `{name: expression}` would hand the
+left-hand expression to the right-hand term), and the right-hand components are calls / names
+(`hshape`, true of every component the resolver makes from an identifier, a quoted name, `y[l]`
+or a call). -/
+theorem C15_independent_same_data (T : Parser.Table) (ops : Resolver.OpTable) (actions : List String)
+    (f₁ f₂ : String) (env : Env) (na₁ na₂ : String) (b₁ b₂ : Built)
+    (ts₁ ts₂ : List Token) (y₁ y₂ rhs : Expr) (op₁ op₂ : Token)
+    (h₁ : designMatrices T ops actions f₁ env na₁ = .ok b₁)
+    (h₂ : designMatrices T ops actions f₂ env na₂ = .ok b₂)
+    (hs₁ : Scanner.scan f₁.toList = .ok ts₁) (hp₁ : Parser.parse T ts₁ = .ok (.binary y₁ op₁ rhs))
+    (hs₂ : Scanner.scan f₂.toList = .ok ts₂) (hp₂ : Parser.parse T ts₂ = .ok (.binary y₂ op₂ rhs))
+    (hop₁ : Resolver.lookupOp ops op₁.kind = some .tilde)
+    (hop₂ : Resolver.lookupOp ops op₂.kind = some .tilde)
+    (hc₁ : (NA.incompleteRows env.frame.nrows
+      (NA.selectCols (usedCols (.binary y₁ op₁ rhs) env.frame) env.frame)).any id = false)
+    (hc₂ : (NA.incompleteRows env.frame.nrows
+      (NA.selectCols (usedCols (.binary y₂ op₂ rhs) env.frame) env.frame)).any id = false)
+    (hrows : b₁.frame.nrows = b₂.frame.nrows)
+    (hfresh : ∀ rv, Resolver.resolve ops rhs = .ok rv → ∀ p ∈ atomTable y₁ ++ atomTable y₂,
+      p.1 ∉ predictorNames (Resolver.rhsCommon rv) (Resolver.rhsGroup rv))
+    (hshape : ∀ rv, Resolver.resolve ops rhs = .ok rv → ∀ p ∈ atomTable rhs,
+      p.1 ∈ predictorNames (Resolver.rhsCommon rv) (Resolver.rhsGroup rv) → isAtomShape p.2 = true) :
+    b₁.common = b₂.common ∧ b₁.group = b₂.group := by
+  obtain ⟨_, _, _, a1, a2, _, a4, _, _⟩ := designMatrices_factor T ops actions f₁ env na₁ b₁ h₁
+  obtain ⟨_, _, _, c1, c2, _, c4, _, _⟩ := designMatrices_factor T ops actions f₂ env na₂ b₂ h₂
+  rw [hs₁] at a1; cases a1
+  rw [hp₁] at a2; cases a2
+  rw [hs₂] at c1; cases c1
+  rw [hp₂] at c2; cases c2
+  have hf₁ := naStep_complete _ _ _ _ _ hc₁ a4
+  have hf₂ := naStep_complete _ _ _ _ _ hc₂ c4
+  refine C15_independent_tilde T ops actions f₁ f₂ env env na₁ na₂ b₁ b₂ ts₁ ts₂ y₁ y₂ rhs op₁ op₂
+    h₁ h₂ hs₁ hp₁ hs₂ hp₂ hop₁ hop₂ rfl hrows ?_
+  intro rv hrv
+  rw [hf₁, hf₂]
+  exact agreeOn_same_data env.frame env.names y₁ y₂ rhs op₁ op₂ _ _ (hfresh rv hrv) (hshape rv hrv)
+
+/-- **no `~`, no response; a response only from a `~`** (any tables): if the design has a response
+then the parsed formula has, at a position the resolver visits, an operator token that the
+operator table maps to `~`, and that token is one of the scanned tokens -/
+theorem C15_response_only_from_tilde (T : Parser.Table) (hE : T.eofCheck = true)
+    (ops : Resolver.OpTable) (actions : List String)
+    (formula : String) (env : Env) (naAction : String) (b : Pipeline.Built) (ts : List Token)
+    (h : Pipeline.designMatrices T ops actions formula env naAction = .ok b)
+    (hs : Scanner.scan formula.toList = .ok ts)
+    (hr : b.response.isSome = true) :
+    ∃ t ∈ ts, Resolver.lookupOp ops t.kind = some .tilde := by
+  obtain ⟨ts', e, m, a1, a2, a3, _, _, a6⟩ := Pipeline.designMatrices_factor T ops actions formula env naAction b h
+  rw [hs] at a1; cases a1
+  have hm : m.resp.isSome = true := by
+    cases hmr : m.resp with
+    | none =>
+      rw [hmr] at a6
+      simp only [Pipeline.responsePart, pure, Except.pure, Except.ok.injEq] at a6
+      rw [← a6] at hr; simp at hr
+    | some _ => rfl
+  have ht := Resolver.describe_resp ops e m a3 hm
+  obtain ⟨t, ht1, ht2⟩ := Resolver.hasTilde_flat ops e ht
+  have hflat : e.flat = ts := C01.C01_yield T hE _ ts e a2
+  exact ⟨t, hflat ▸ ht1, ht2⟩
+
+/-- with the tables regenerated from the source: a formula whose scan has no `~` token gives a
+design without response -/
+theorem C15_none (actions : List String) (formula : String) (env : Env) (naAction : String)
+    (b : Pipeline.Built) (ts : List Token)
+    (h : Pipeline.designMatrices Generated.parserTable Generated.resolverOps actions formula env naAction = .ok b)
+    (hs : Scanner.scan formula.toList = .ok ts)
+    (hno : ts.any Scanner.isTilde = false) : b.response = none := by
+  cases hb : b.response with
+  | none => rfl
+  | some out =>
+    obtain ⟨t, ht, hk⟩ := C15_response_only_from_tilde Generated.parserTable (by decide)
+      Generated.resolverOps actions formula env naAction b ts h hs (by simp [hb])
+    have hkind : t.kind = .TILDE := by
+      revert hk
+      cases t.kind <;> decide
+    have : ts.any Scanner.isTilde = true := List.any_eq_true.mpr ⟨t, ht, by simp [Scanner.isTilde, hkind]⟩
+    rw [hno] at this; cases this
+
+/-- **without a response the design simply has none**, at the level of the formula text: a
+formula in which the character `~` does not occur (with the tables regenerated from the source)
+gives a design without response -/
+theorem C15_none_chars (actions : List String) (formula : String) (env : Env) (naAction : String)
+    (b : Pipeline.Built)
+    (h : Pipeline.designMatrices Generated.parserTable Generated.resolverOps actions formula env naAction = .ok b)
+    (hno : '~' ∉ formula.toList) : b.response = none := by
+  obtain ⟨ts, _, _, hs, _⟩ := Pipeline.designMatrices_factor _ _ _ _ _ _ b h
+  exact C15_none actions formula env naAction b ts h hs (Scanner.scan_no_tilde _ true ts hs hno)
+
+/-- conversely, `lhs ~ rhs` that builds has a response -/
+theorem C15_tilde_has_response (T : Parser.Table) (ops : Resolver.OpTable) (actions : List String)
+    (formula : String) (env : Env) (naAction : String) (b : Pipeline.Built) (ts : List Token)
+    (l r : Expr) (op : Token)
+    (h : Pipeline.designMatrices T ops actions formula env naAction = .ok b)
+    (hs : Scanner.scan formula.toList = .ok ts) (hp : Parser.parse T ts = .ok (.binary l op r))
+    (hop : Resolver.lookupOp ops op.kind = some .tilde) : b.response.isSome = true := by
+  obtain ⟨ts', e, m, a1, a2, a3, _, _, a6⟩ := Pipeline.designMatrices_factor T ops actions formula env naAction b h
+  rw [hs] at a1; cases a1
+  rw [hp] at a2; cases a2
+  obtain ⟨a, _, _, _, hresp, _, _⟩ := Resolver.describe_tilde ops l op r hop m a3
+  rw [hresp] at a6
+  simp only [Pipeline.responsePart, bind, Except.bind, pure, Except.pure] at a6
+  split at a6
+  · simp at a6
+  · simp only [Except.ok.injEq] at a6
+    rw [← a6]; rfl
+
+-- ---------------------------------------------------------------------------------------------
+-- categorical response, `y[level]`
+-- ---------------------------------------------------------------------------------------------
+/-- in the whole-pipeline model the response term is its single component trained with
+`is_response = True` and the **full** coding flag (never the flags of the redundancy analysis) -/
+theorem C15_response_coded_full (env : Env) (atoms : List (String × Expr)) (a : Terms.Atom)
+    (r : Option TermOut) (h : Pipeline.responsePart env atoms (some [a]) = .ok r) :
+    ∃ e co, compExpr atoms a.name = .ok e ∧ trainComp env a.name e false true true = .ok co ∧
+      r = some ⟨⟨a.name, [co.st], co.st.kind.name⟩, co.value, co.labels⟩ := by
+  simp only [Pipeline.responsePart, trainTerm, List.map_cons, List.map_nil, List.mapM_cons,
+    List.mapM_nil, bind, Except.bind, pure, Except.pure, Pipeline.liftE] at h
+  cases he : compExpr atoms a.name with
+  | error _ => simp [he] at h
+  | ok e =>
+    cases hco : trainComp env a.name e false true true with
+    | error _ => simp [he, hco] at h
+    | ok co =>
+      refine ⟨e, co, rfl, hco, ?_⟩
+      simp only [he, hco, Except.ok.injEq] at h
+      rw [← h]
+      have hn : (Terms.CTerm.term [a]).name = a.name := rfl
+      rw [hn]
+      cases hl : co.labels <;> simp [reduceMatrices, reduceLabels, hl]
+
+/-- **categorical response**: a string / categorical response column trained as the pipeline
+trains it (`is_response`, full coding) is one indicator column per level, the levels in sorted
+order — or in the declared order of an ordered categorical — and row `r` has its 1 in the column
+of the level of observation `r`; the labels are `name[level]`.  (`hd`: the declared categories of
+an ordered categorical are distinct, as pandas guarantees.) -/
+theorem C15_categorical_value (env : Env) (name : String) (v : Token) (c : Column)
+    (xs : List (Option Level)) (d : Option (Bool × List String)) (out : CompOut)
+    (hc : env.frame.col? v.lexeme = some c) (hv : colVal c = .lvec xs d)
+    (hd : ∀ cats, d = some (true, cats) → cats.Nodup)
+    (h : trainComp env name (.variable v) false true true = .ok out) :
+    ∃ levels, Spec.C15.levelOrder xs d = some levels ∧ out.st.levels = levels ∧
+      out.st.kind = .categoric ∧
+      out.value = xs.map (fun x => levels.map (fun l => some (if x == some l then (1 : Rat) else 0))) ∧
+      out.labels = some (levels.map (fun l => name ++ "[" ++ l.label ++ "]")) := by
+  simp only [trainComp, hc, hv, bind, Except.bind, pure, Except.pure] at h
+  split at h
+  · simp at h
+  · rename_i res hres
+    obtain ⟨levels, cm, m⟩ := res
+    simp only [Except.ok.injEq] at h
+    subst h
+    obtain ⟨h1, h2, h3⟩ := evalCategoric_full name xs d hd levels cm m hres
+    refine ⟨levels, h1, rfl, rfl, h3, ?_⟩
+    simp [categoricLabels, h2, treatmentFull]
+
+/-- entry by entry: the entry in row `r`, column `k` of a categorical response is 1 exactly when
+observation `r` equals level `k` (and 0 otherwise) -/
+theorem C15_categorical_entry (env : Env) (name : String) (v : Token) (c : Column)
+    (xs : List (Option Level)) (d : Option (Bool × List String)) (out : CompOut)
+    (hc : env.frame.col? v.lexeme = some c) (hv : colVal c = .lvec xs d)
+    (hd : ∀ cats, d = some (true, cats) → cats.Nodup)
+    (h : trainComp env name (.variable v) false true true = .ok out) :
+    out.value.length = xs.length ∧
+    ∀ r (hr : r < xs.length) k (hk : k < out.st.levels.length),
+      (out.value.getD r []).getD k none = some (if xs[r] = some out.st.levels[k] then 1 else 0) := by
+  obtain ⟨levels, _, h2, _, h4, _⟩ := C15_categorical_value env name v c xs d out hc hv hd h
+  subst h2
+  rw [h4]
+  refine ⟨by simp, fun r hr k hk => ?_⟩
+  simp [hr, hk]
+
+/-- `y[level]` in both spellings (`y[a]`, `y["a"]`): a single 0/1 column, 1 exactly where y
+equals the level; the levels of y are still remembered (sorted / declared order); there is no
+contrast matrix -/
+theorem C15_subset_value_general (env : Env) (name : String) (v lb rb : Token) (lv : Expr) (ref : String)
+    (c : Column) (xs : List (Option Level)) (d : Option (Bool × List String)) (full : Bool) (out : CompOut)
+    (hc : env.frame.col? v.lexeme = some c) (hv : colVal c = .lvec xs d)
+    (hlv : (∃ l, lv = .variable l ∧ ref = l.lexeme) ∨
+           (∃ t, lv = .literal t ∧ ref = Spec.C15.unq t.lexeme))
+    (h : trainComp env name (.subset v lb lv rb) false true full = .ok out) :
+    out.value = xs.map (fun x => [some (if x = some (Level.s ref) then 1 else 0)]) ∧
+    out.labels = some [name ++ "[" ++ ref ++ "]"] ∧
+    Spec.C15.levelOrder xs d = some out.st.levels ∧ out.st.contrast = none ∧
+    out.st.kind = .categoric := by
+  rcases hlv with ⟨l, rfl, rfl⟩ | ⟨t, rfl, rfl⟩
+  all_goals
+    simp only [trainComp, hc, hv, bind, Except.bind, pure, Except.pure] at h
+    repeat' split at h
+    all_goals first
+      | (simp at h; done)
+      | (simp only [Except.ok.injEq] at h; subst h
+         refine ⟨by simp [Spec.C15.unq], rfl, ?_, rfl, rfl⟩
+         simp_all [Spec.C15.levelOrder])
+
+/-- a level that does not occur in the data is **not refused**: the response is the zero column -/
+theorem C15_subset_absent_level (env : Env) (name : String) (v lb rb l : Token)
+    (c : Column) (xs : List (Option Level)) (d : Option (Bool × List String)) (full : Bool) (out : CompOut)
+    (hc : env.frame.col? v.lexeme = some c) (hv : colVal c = .lvec xs d)
+    (habs : some (Level.s l.lexeme) ∉ xs)
+    (h : trainComp env name (.subset v lb (.variable l) rb) false true full = .ok out) :
+    out.value = xs.map (fun _ => [some 0]) := by
+  rw [(C15_subset_value env name v lb rb l c xs d full out hc hv h).1]
+  apply List.map_congr_left
+  intro x hx
+  have : x ≠ some (Level.s l.lexeme) := fun he => habs (he ▸ hx)
+  simp [this]
+
+-- non-vacuity of the categorical-response theorems
+namespace Ex2
+def tk (k : Kind) (s : String) : Token := ⟨k, s⟩
+def fr : Frame :=
+  [⟨"g", .string, [.str "b", .str "a", .str "b"]⟩,
+   ⟨"o", .categorical true ["hi", "lo"], [.str "lo", .str "hi", .str "lo"]⟩,
+   ⟨"x", .numeric true, [.num 0, .num 1, .num 5]⟩]
+def env : Env := ⟨fr, []⟩
+def var (n : String) : Expr := .variable (tk .IDENTIFIER n)
+def sub (n l : String) : Expr := .subset (tk .IDENTIFIER n) (tk .LEFT_BRACKET "[") (var l) (tk .RIGHT_BRACKET "]")
+theorem ok_of_check {ε α : Type} (x : Except ε α) (p : α → Bool)
+    (h : (match x with | .ok a => p a | .error _ => false) = true) : ∃ a, x = .ok a ∧ p a = true := by
+  cases x with
+  | ok a => exact ⟨a, rfl, h⟩
+  | error e => cases h
+end Ex2
+
+open Ex2 in
+/-- `C15_categorical_value` / `C15_categorical_entry`: a string response (levels sorted: a, b) and
+an ordered categorical response (declared order: hi, lo) -/
+example :
+    (∃ out, trainComp env "g" (var "g") false true true = .ok out ∧
+      (out.value == [[some 0, some 1], [some 1, some 0], [some 0, some 1]] &&
+       out.labels == some ["g[a]", "g[b]"]) = true) ∧
+    (∃ out, trainComp env "o" (var "o") false true true = .ok out ∧
+      (out.value == [[some 0, some 1], [some 1, some 0], [some 0, some 1]] &&
+       out.labels == some ["o[hi]", "o[lo]"]) = true) ∧
+    env.frame.col? "g" = some ⟨"g", .string, [.str "b", .str "a", .str "b"]⟩ ∧
+    ["hi", "lo"].Nodup :=
+  ⟨ok_of_check _ _ (by decide +kernel), ok_of_check _ _ (by decide +kernel), rfl, by decide⟩
+
+open Ex2 in
+/-- `C15_subset_value_general` / `C15_subset_absent_level`: `g[b]` and the absent level `g[z]` -/
+example :
+    (∃ out, trainComp env "g" (sub "g" "b") false true true = .ok out ∧
+      (out.value == [[some 1], [some 0], [some 1]]) = true) ∧
+    (∃ out, trainComp env "g" (sub "g" "z") false true true = .ok out ∧
+      (out.value == [[some 0], [some 0], [some 0]]) = true) ∧
+    some (Level.s "z") ∉ [some (Level.s "b"), some (Level.s "a"), some (Level.s "b")] :=
+  ⟨ok_of_check _ _ (by decide +kernel), ok_of_check _ _ (by decide +kernel), by decide⟩
+
+open Ex2 in
+/-- `C15_response_coded_full`: the response part of the pipeline for the response `g` -/
+example : ∃ r, Pipeline.responsePart env [("g", var "g")] (some [.var (.str "g") none]) = .ok r :=
+  match h : Pipeline.responsePart env [("g", var "g")] (some [.var (.str "g") none]) with
+  | .ok r => ⟨r, rfl⟩
+  | .error e => by
+    have : (match Pipeline.responsePart env [("g", var "g")] (some [.var (.str "g") none]) with
+      | .ok _ => true | .error _ => false) = true := by decide +kernel
+    rw [h] at this; cases this
+
+-- non-vacuity of the pipeline theorems: concrete runs of the whole-pipeline model
+section NonVacuity
+open FormulaeModel.Pipeline
+namespace Ex
+def fr : Frame :=
+  [⟨"y", .numeric true, [.num 1, .num 2, .num 3]⟩, ⟨"z", .numeric true, [.num 4, .num 2, .num 3]⟩,
+   ⟨"x", .numeric true, [.num 0, .num 1, .num 5]⟩, ⟨"f", .string, [.str "a", .str "b", .str "a"]⟩]
+def run (f : String) : Except PErr Built :=
+  designMatrices Generated.parserTable Generated.resolverOps Generated.naActions f ⟨fr, []⟩ "drop"
+def tk (k : Kind) (s : String) : Token := ⟨k, s⟩
+def rhs : Expr :=
+  .binary (.binary (.literal (tk .NUMBER "1")) (tk .PLUS "+") (.variable (tk .IDENTIFIER "x")))
+    (tk .PLUS "+") (.variable (tk .IDENTIFIER "f"))
+def lhs (v : String) : Expr := .variable (tk .IDENTIFIER v)
+def whole (v : String) : Expr := .binary (lhs v) (tk .TILDE "~") rhs
+def sel (v : String) : Frame := fr.filter (fun c => [v, "x", "f"].contains c.name)
+
+theorem run_ok (f : String) (h : (match run f with | .ok _ => true | _ => false) = true) :
+    ∃ b, run f = .ok b := by
+  cases hr : run f with
+  | ok b => exact ⟨b, rfl⟩
+  | error e => rw [hr] at h; cases h
+end Ex
+
+open Ex in
+/-- non-vacuity of `C15_independent_tilde` (and through it of `C15_independent`,
+`C15_predictors_function`): `y ~ x + f` and `z ~ x + f` on one frame -/
+example : ∃ b₁ b₂, run "y ~ x + f" = .ok b₁ ∧ run "z ~ x + f" = .ok b₂ ∧
+    b₁.common = b₂.common ∧ b₁.group = b₂.group := by
+  obtain ⟨b₁, h₁⟩ := run_ok "y ~ x + f" (by decide +kernel)
+  obtain ⟨b₂, h₂⟩ := run_ok "z ~ x + f" (by decide +kernel)
+  refine ⟨b₁, b₂, h₁, h₂, ?_⟩
+  have hs₁ : Scanner.scan "y ~ x + f".toList = .ok (whole "y").flat := by rfl
+  have hs₂ : Scanner.scan "z ~ x + f".toList = .ok (whole "z").flat := by rfl
+  have hp₁ : Parser.parse Generated.parserTable (whole "y").flat = .ok (whole "y") := by rfl
+  have hp₂ : Parser.parse Generated.parserTable (whole "z").flat = .ok (whole "z") := by rfl
+  -- the frames after the NA step
+  obtain ⟨_, _, _, a1, a2, _, a4, _, _⟩ := C15_predictors_function _ _ _ _ _ _ b₁ h₁
+  obtain ⟨_, _, _, c1, c2, _, c4, _, _⟩ := C15_predictors_function _ _ _ _ _ _ b₂ h₂
+  rw [hs₁] at a1; cases a1
+  rw [hp₁] at a2; cases a2
+  rw [hs₂] at c1; cases c1
+  rw [hp₂] at c2; cases c2
+  have hf₁ : b₁.frame = sel "y" := by
+    have : NA.naStep Generated.naActions "drop" (usedCols (whole "y") fr) fr = .ok (sel "y") := by rfl
+    exact Except.ok.inj (a4.symm.trans this)
+  have hf₂ : b₂.frame = sel "z" := by
+    have : NA.naStep Generated.naActions "drop" (usedCols (whole "z") fr) fr = .ok (sel "z") := by rfl
+    exact Except.ok.inj (c4.symm.trans this)
+  refine C15_independent_tilde _ _ _ _ _ _ _ _ _ b₁ b₂ _ _ (lhs "y") (lhs "z") rhs (tk .TILDE "~") (tk .TILDE "~")
+    h₁ h₂ hs₁ hp₁ hs₂ hp₂ (by rfl) (by rfl) rfl (by rw [hf₁, hf₂]; rfl) ?_
+  intro rv hrv n hn
+  have : Resolver.resolve Generated.resolverOps rhs =
+      .ok (.model { common := [.intercept, .term [.var (.str "x") none], .term [.var (.str "f") none]] }) := by rfl
+  rw [this] at hrv; cases hrv
+  rw [hf₁, hf₂]
+  simp only [predictorNames, Resolver.rhsCommon, Resolver.rhsGroup, termNames, List.flatMap_cons,
+    List.flatMap_nil, List.map_cons, List.map_nil, List.append_nil, List.nil_append,
+    Terms.Atom.name, Terms.VName.text, List.mem_cons, List.cons_append, List.not_mem_nil, or_false] at hn
+  rcases hn with rfl | rfl
+  · refine ⟨by rfl, fun e he c hc => ?_⟩
+    have : compExpr (atomTable (whole "y")) "x" = .ok (.variable (tk .IDENTIFIER "x")) := by rfl
+    have he' := Except.ok.inj (he.symm.trans this); subst he'
+    have hc' : c = "x" := by simpa [compNames, isCallLike, varColRef, tk] using hc
+    subst hc'; rfl
+  · refine ⟨by rfl, fun e he c hc => ?_⟩
+    have : compExpr (atomTable (whole "y")) "f" = .ok (.variable (tk .IDENTIFIER "f")) := by rfl
+    have he' := Except.ok.inj (he.symm.trans this); subst he'
+    have hc' : c = "f" := by simpa [compNames, isCallLike, varColRef, tk] using hc
+    subst hc'; rfl
+open Ex in
+/-- non-vacuity of `C15_independent_same_data`: the same two runs; every side condition holds -/
+example : ∃ b₁ b₂, run "y ~ x + f" = .ok b₁ ∧ run "z ~ x + f" = .ok b₂ ∧
+    b₁.common = b₂.common ∧ b₁.group = b₂.group := by
+  obtain ⟨b₁, h₁⟩ := run_ok "y ~ x + f" (by decide +kernel)
+  obtain ⟨b₂, h₂⟩ := run_ok "z ~ x + f" (by decide +kernel)
+  refine ⟨b₁, b₂, h₁, h₂, ?_⟩
+  have hs₁ : Scanner.scan "y ~ x + f".toList = .ok (whole "y").flat := by rfl
+  have hs₂ : Scanner.scan "z ~ x + f".toList = .ok (whole "z").flat := by rfl
+  have hp₁ : Parser.parse Generated.parserTable (whole "y").flat = .ok (whole "y") := by rfl
+  have hp₂ : Parser.parse Generated.parserTable (whole "z").flat = .ok (whole "z") := by rfl
+  obtain ⟨_, _, _, a1, a2, _, a4, _, _⟩ := C15_predictors_function _ _ _ _ _ _ b₁ h₁
+  obtain ⟨_, _, _, c1, c2, _, c4, _, _⟩ := C15_predictors_function _ _ _ _ _ _ b₂ h₂
+  rw [hs₁] at a1; cases a1
+  rw [hp₁] at a2; cases a2
+  rw [hs₂] at c1; cases c1
+  rw [hp₂] at c2; cases c2
+  have hf₁ : b₁.frame = sel "y" := by
+    have : NA.naStep Generated.naActions "drop" (usedCols (whole "y") fr) fr = .ok (sel "y") := by rfl
+    exact Except.ok.inj (a4.symm.trans this)
+  have hf₂ : b₂.frame = sel "z" := by
+    have : NA.naStep Generated.naActions "drop" (usedCols (whole "z") fr) fr = .ok (sel "z") := by rfl
+    exact Except.ok.inj (c4.symm.trans this)
+  have hrv : Resolver.resolve Generated.resolverOps rhs =
+      .ok (.model { common := [.intercept, .term [.var (.str "x") none], .term [.var (.str "f") none]] }) := by rfl
+  refine C15_independent_same_data _ _ _ _ _ ⟨fr, []⟩ _ _ b₁ b₂ _ _ (lhs "y") (lhs "z") rhs
+    (tk .TILDE "~") (tk .TILDE "~") h₁ h₂ hs₁ hp₁ hs₂ hp₂ (by rfl) (by rfl)
+    (by decide +kernel) (by decide +kernel) (by rw [hf₁, hf₂]; rfl) ?_ ?_
+  · intro rv h p hp
+    have hrv' := Except.ok.inj (h.symm.trans hrv); subst hrv'
+    have ht : atomTable (lhs "y") ++ atomTable (lhs "z") = [("y", lhs "y"), ("z", lhs "z")] := by rfl
+    have hn : predictorNames (Resolver.rhsCommon (.model { common := [.intercept,
+        .term [.var (.str "x") none], .term [.var (.str "f") none]] })) (Resolver.rhsGroup (.model
+        { common := [.intercept, .term [.var (.str "x") none], .term [.var (.str "f") none]] })) =
+        ["x", "f"] := by rfl
+    rw [ht] at hp; rw [hn]
+    simp only [List.mem_cons, List.not_mem_nil, or_false] at hp
+    rcases hp with rfl | rfl <;> decide
+  · intro rv h p hp _
+    have ht : atomTable rhs = [("1", .literal (tk .NUMBER "1")), ("x", lhs "x"), ("f", lhs "f")] := by rfl
+    rw [ht] at hp
+    simp only [List.mem_cons, List.not_mem_nil, or_false] at hp
+    rename_i hin
+    have hrv' := Except.ok.inj (h.symm.trans hrv); subst hrv'
+    rcases hp with rfl | rfl | rfl
+    · exact absurd hin (by decide)
+    · rfl
+    · rfl
+
+open Ex in
+/-- non-vacuity of `C15_none` / `C15_none_chars`: `x + f` builds, its text has no `~` character and
+its scan no `~` token -/
+example : ∃ b ts, run "x + f" = .ok b ∧ Scanner.scan "x + f".toList = .ok ts ∧
+    ts.any Scanner.isTilde = false ∧ '~' ∉ "x + f".toList ∧ b.response = none := by
+  obtain ⟨b, h⟩ := run_ok "x + f" (by decide +kernel)
+  have hs : Scanner.scan "x + f".toList = .ok rhs.flat := by rfl
+  exact ⟨b, _, h, hs, by decide, by decide, C15_none_chars _ _ _ _ b h (by decide)⟩
+
+open Ex in
+/-- non-vacuity of `C15_tilde_has_response` and `C15_response_only_from_tilde` -/
+example : ∃ b, run "y ~ x + f" = .ok b ∧ b.response.isSome = true ∧
+    ∃ t ∈ (whole "y").flat, Resolver.lookupOp Generated.resolverOps t.kind = some .tilde := by
+  obtain ⟨b, h⟩ := run_ok "y ~ x + f" (by decide +kernel)
+  have hs : Scanner.scan "y ~ x + f".toList = .ok (whole "y").flat := by rfl
+  have hp : Parser.parse Generated.parserTable (whole "y").flat = .ok (whole "y") := by rfl
+  have hr := C15_tilde_has_response _ _ _ _ _ _ b _ (lhs "y") rhs (tk .TILDE "~") h hs hp (by rfl)
+  exact ⟨b, h, hr, C15_response_only_from_tilde _ (by decide) _ _ _ _ _ b _ h hs hr⟩
+
+end NonVacuity
 
 end FormulaeModel.C15
